@@ -51,3 +51,31 @@ func VerifC05Consts() map[string]int {
 		"optOptionHdrLen":    wire.OPTOptionHdrLen,
 	}
 }
+
+// VerifC05WF is what the edns handler decided for one client (the fields of
+// the per-request writer wrapper both of its branches fill).
+type VerifC05WF struct {
+	Size                              int
+	DO, NoEDNS, NSID, Keepalive, NoAD bool
+	RespUDPSize                       uint16
+	Cookie                            string // client half, hex ("" = none)
+}
+
+// VerifC05WriterFacts reads the wrapper installed on the chain (accessor only).
+func VerifC05WriterFacts(w middleware.ResponseWriter) (VerifC05WF, bool) {
+	rw, ok := w.(*ResponseWriter)
+	if !ok {
+		return VerifC05WF{}, false
+	}
+	f := VerifC05WF{Size: rw.size, DO: rw.do, NoEDNS: rw.noedns, NSID: rw.nsid, Keepalive: rw.keepalive, NoAD: rw.noad,
+		RespUDPSize: rw.respUDPSize, Cookie: rw.cookie}
+	if rw.hasCookieRaw {
+		const hexd = "0123456789abcdef"
+		b := make([]byte, 0, 16)
+		for _, c := range rw.cookieRaw {
+			b = append(b, hexd[c>>4], hexd[c&15])
+		}
+		f.Cookie = string(b)
+	}
+	return f, true
+}
